@@ -113,10 +113,10 @@ class StmtMixin:
             ks = n['inner']
             v = self.const_value(ks[0])
             out.append(ind + 'case %s:' % (str(v) if v is not None else self.expr(ks[0])))
-            self.stmt(ks[-1], out, ind + '  ')
+            self.case_body(ks[-1], out, ind + '  ')
         elif k == 'DefaultStmt':
             out.append(ind + 'default:')
-            self.stmt(n['inner'][0], out, ind + '  ')
+            self.case_body(n['inner'][0], out, ind + '  ')
         elif k == 'CXXTryStmt' or k == 'CXXThrowExpr':
             h = self.u_hook('stmt', n, out, ind)
             if h is None: raise Unsupported('%s at %s' % (k, self.where(n)))
@@ -129,6 +129,14 @@ class StmtMixin:
             e = self.expr(n)
             self.flush(out, ind)
             out.append(ind + e + ';')
+
+    def case_body(self, n, out, ind):
+        """statement labelled by case/default: nested labels stay labels; anything else goes into a block
+        (hoisted temporaries are declarations, which C does not allow directly after a label)"""
+        if n.get('kind') in ('CaseStmt', 'DefaultStmt', 'CompoundStmt'):
+            self.stmt(n, out, ind)
+        else:
+            out.append(ind + '{'); self.stmt(n, out, ind + '  '); out.append(ind + '}')
 
     def ret_stmt(self, e):
         if self.ctor_mode:
